@@ -113,6 +113,25 @@ theorem c31_topk_total_order_partial (lanes : Nat) (hl : 1 ≤ lanes) (k : Nat) 
       (fun a b h => h) (fun a b ha hb => fgt_iff_tkey_noPosZero ha.1 hb.1 ha.2 hb.2) k xs
       (fun x hx => ⟨hnan x hx, hz x hx⟩)
 
+/-- **C31.T1 (partial, readable form)** Under the same hypotheses the kept scores are exactly
+the scores of the first `min k n` entries of `Sort` (the fully sorted input): "the K largest,
+sorted in descending order". (Which of several candidates with identical scores is kept is not
+fixed by the property; the model/implementation agreement on ids is checked by the harness.) -/
+theorem c31_topk_scores_eq_sorted_prefix (lanes : Nat) (hl : 1 ≤ lanes) (k : Nat) (xs : List Item)
+    (hnan : ∀ x ∈ xs, x.isNaN = false)
+    (hz : (∀ x ∈ xs, x.bits ≠ 2 ^ 31) ∨ (∀ x ∈ xs, x.bits ≠ 0)) :
+    ∃ out, topKItems lanes k xs = some out ∧
+      out.map Item.key = ((sortDesc Item.key xs).take (min k xs.length)).map Item.key := by
+  obtain ⟨out, ho, hlen, hd, excl, hp, hle⟩ := c31_topk_total_order_partial lanes hl k xs hnan hz
+  refine ⟨out, ho, ?_⟩
+  rw [← hlen]
+  exact keys_eq_sorted_prefix Item.key out excl xs hd hp hle
+
+/-- `Sort` returns a descending (total order) permutation of its input. -/
+theorem c31_sort_contract (xs : List Item) :
+    Desc Item.key (sortDesc Item.key xs) ∧ (sortDesc Item.key xs).Perm xs :=
+  ⟨sortDesc_desc Item.key xs, sortDesc_perm Item.key xs⟩
+
 /-- Non-vacuity: 5 NaN-free logits without `-0.0`, `k = 2`, width 2 (one full chunk is
 skipped — `anyGt … = false` — then the tail element is admitted): the two largest are kept,
 ties in input order. -/
